@@ -348,7 +348,7 @@ func main() {
 	for n := 1; n <= 40; n++ {
 		sizes = append(sizes, n)
 	}
-	sizes = append(sizes, 64, 65, 100, 128, 129, 300)
+	sizes = append(sizes, 64, 65, 100, 128, 129, 300, 511, 513, 1023, 1025, 1100) // around the powers of two where stacks and buffers grow
 	if !r.Quick() {
 		sizes = append(sizes, 1000, 3000)
 	}
